@@ -1,6 +1,7 @@
 package main
 
 import (
+	"github.com/mmcloughlin/avo/ir"
 	"bytes"
 	"fmt"
 	"go/ast"
@@ -85,8 +86,31 @@ func c12(c *Ctx) {
 		if err := pass.Compile.Execute(f); err != nil {
 			die(err)
 		}
+		merged := false
+		if rng.Chance(25) {
+			// a second, separately compiled file whose sections are appended to the exported Sections field
+			ctx2 := build.NewContext()
+			ctx2.Function(fmt.Sprintf("Merged%d", k))
+			ctx2.Attributes(attr.NOSPLIT)
+			ctx2.SignatureExpr("func(x uint64) uint64")
+			ctx2.Doc("Merged is appended after compilation.")
+			ctx2.MOVQ(operand.U32(2), reg.RAX)
+			ctx2.RET()
+			f2, err2 := ctx2.Result()
+			if err2 != nil {
+				die(err2)
+			}
+			if err := pass.Compile.Execute(f2); err != nil {
+				die(err)
+			}
+			f.Sections = append(f.Sections, f2.Sections...)
+			merged = true
+		}
 		stub, err := printer.NewStubs(cfg).Print(f)
 		desc := fmt.Sprintf("%d functions", nf)
+		if merged {
+			desc += " + one function merged from a second compiled file"
+		}
 		for _, fi := range fns {
 			desc += fmt.Sprintf("; %s%s doc=%q pragmas=%v", fi.name, strings.TrimPrefix(fi.sig, "func"), fi.doc, fi.prag)
 		}
@@ -106,7 +130,13 @@ func c12(c *Ctx) {
 		}
 		// model input
 		var sfs []string
-		for _, fn := range f.Functions() {
+		var fnSecs []*ir.Function // read from the sections themselves, not through File.Functions()
+		for _, sec := range f.Sections {
+			if fn, ok := sec.(*ir.Function); ok {
+				fnSecs = append(fnSecs, fn)
+			}
+		}
+		for _, fn := range fnSecs {
 			var ps []string
 			for _, p := range fn.Pragmas {
 				ps = append(ps, cPair(cStr(p.Directive), cStrs(p.Arguments)))
